@@ -43,6 +43,86 @@ def run(facts, rep):
     d6_width(facts, rep)
     d7_fresh_poll(facts, rep)
     d8_cleanup_access(facts, rep)
+    d9_failure_visibility(facts, rep)
+
+
+def d9_failure_visibility(facts, rep):
+    """'If an allocation or element constructor throws ... later accesses either work or throw': a later growth call that needs a
+    segment it does not own WAITS for the owner to publish it.  So after a failed call nothing it was responsible for may stay
+    'pending' for ever.
+    (a) The exception cleanup of internal_loop_construct gives up the rest of its claimed range; the segments whose first
+        element lies in that rest are this call's to allocate.  The cleanup must leave each of them allocated or tagged with the
+        failure tag (then later accesses throw): a store / compare-exchange of segment_allocation_failure_tag into a table entry,
+        or a call that enables the segment, is required in the cleanup functor.
+    (b) Every wait for the long segment table (a loop / spin that ends when my_segment_table != my_embedded_table) consults
+        my_segment_table_allocation_failed, as the waiters inside extend_table_if_necessary do (sibling agreement): the thread
+        that failed to allocate the table only raises that flag."""
+    n = 0
+    for fn in facts.get(CV + 'internal_loop_construct'):
+        hs = []
+        for pos, s, node, d in calls_named(fn, ('make_raii_guard',)):
+            for a in node.get('a', []):
+                for x in fn.subtree(a):
+                    if fn.nodes[x].get('k') == 'lambda' and facts.fns.get(fn.nodes[x].get('fn')) is not None:
+                        hs.append(facts.fns[fn.nodes[x]['fn']])
+        for _, k, bs, hh, _ in try_call_sites(facts, fn):
+            if k == 'on_exception':
+                hs += hh
+        if not hs:
+            raise AnalysisBroken('internal_loop_construct: exception cleanup functor not found')
+        from engine.rules import Summaries
+        summ = Summaries(facts, max_depth=3)
+
+        def tags_or_enables(f, pos, e):
+            if not isinstance(e, int):
+                return False
+            o = atomic_op(f, e)
+            if o and o['kind'] in ('store', 'cas', 'rmw') and o.get('val', -1) >= 0 and \
+                    any(f.nodes[x].get('n') == 'segment_allocation_failure_tag' for x in f.subtree(o['val'])):
+                return True
+            return is_call_to(f, e, shortnames=('enable_segment', 'create_segment'))
+        ok = any(summ.may(h, 'tag-abandoned', tags_or_enables) for h in hs)
+        n += 1
+        rep.ob('D9', 'K3', fn, 'the exception cleanup leaves every segment of the abandoned range allocated or tagged as failed', ok,
+               'segments whose first element lies in the abandoned part of the claimed range stay nullptr with nobody left to allocate them: a '
+               'later push_back / grow_by that lands inside such a segment waits for it for ever', key_extra=str(fn.l0))
+    # (b)
+    nw = 0
+    for fn in facts.fns.values():
+        if not ((fn.cls or '').startswith(D1N + 'concurrent_vector') or (fn.cls or '').startswith(D1N + 'segment_table')):
+            continue
+        waits = []
+        for pos, s, node, d in calls_named(fn, ('spin_wait_while_eq', 'spin_wait_until_eq', 'spin_wait_while')):
+            a = node.get('a', [])
+            if a and last_member(fn, a[0]) == 'my_segment_table':
+                waits.append((pos, node, None))
+        for pos, s, node, d in calls_named(fn, ('pause',)):
+            reached, ex, par = fn.walk(pos)
+            if pos not in reached:
+                continue
+            cyc = set(q for q in reached if fn.can_reach(q, pos))
+            cyc_blocks = set(q[0] for q in cyc)
+            on_table = False
+            for b in cyc_blocks:
+                t = fn.blocks[b].get('term')
+                if t and 'c' in t and any(fn.nodes[x].get('k') == 'member' and fn.nodes[x].get('n') == 'my_embedded_table'
+                                         for x in fn.subtree(t['c'])):
+                    on_table = True
+            if on_table:
+                waits.append((pos, node, cyc))
+        for pos, node, cyc in waits:
+            nw += 1
+            if cyc is None:
+                ok = False
+            else:
+                ok = any(isinstance(fn.elems(q[0])[q[1]], int) and (atomic_op(fn, fn.elems(q[0])[q[1]]) or {}).get('kind') == 'load' and
+                         last_member(fn, atomic_op(fn, fn.elems(q[0])[q[1]])['obj']) == 'my_segment_table_allocation_failed' for q in cyc)
+            rep.ob('D9', 'K7', fn, 'the wait for the long segment table at line %s also looks at the allocation-failed flag' % node['ln'], ok,
+                   'when the thread that extends the table fails (bad_alloc) it only raises my_segment_table_allocation_failed; this wait never '
+                   'ends', ln=node['ln'], key_extra='tablewait|%s' % node['ln'])
+    if nw < 1:
+        raise AnalysisBroken('no wait for the long segment table found (extend_table_if_necessary)')
+    rep.floor('D9', 3, 'failure visibility')
 
 
 def witnesses(rep, tier):
